@@ -226,6 +226,8 @@ def rule_guards_test_final_value(ctx, cfg='prod-all', scope=('bbsplus::',), rule
                     later.append('L%s %s' % (x.get('line'), 'assignment' if kind == 'assign' else (x.get('callee') or '').split('::')[-1]))
             for e in mf.events.get(root, []):
                 if e['kind'] == 'mutarg' and e['b'] in after:
+                    if (e['call'].get('callee') or '').startswith(('std::iter::Iterator::', 'core::iter::')):
+                        continue      # advancing an iterator over the container (`slice.iter().any(..)`) reads the container, it does not write it
                     tgt = e.get('target')
                     if tgt is not None and path and tuple(tgt[1][:len(path)]) != tuple(path[:len(tgt[1])]):
                         continue      # another field of the same aggregate
